@@ -225,6 +225,57 @@ def suite_cpp(seed, tier):
         terms.append(f"chk_dissim {cbool(m % 8 == 0)} {copt(nf, cz)} {rows_term(X)} {gt}")
         meta.append(("most_dissimilar", inp))
 
+    # ---- add_rows / jt_isim_unpacked_u8 / jt_isim_packed_u8 (the three kernels that compose the others)
+    import os
+    have_k5 = os.path.exists(os.path.join(os.path.dirname(os.path.abspath(__file__)), "..", "coq", "Proofs", "CppMore.v"))
+    for _ in range(20 * scale):
+        w, m, n = rng.choice([1, 2, 3, 5, 8, 9, 16, 64, 65]), rng.choice(MISALIGN), rng.randrange(1, 7)
+        X = rand_rows(rng, n, w)                      # arbitrary byte values (not only 0/1)
+        if rng.random() < 0.5:
+            X = (X & 1).astype(np.uint8)              # bit rows: the documented input
+        inp = {"rows": X.tolist(), "misalign": m}
+        count("add_rows", w, m)
+        got = [int(v) for v in ck.add_rows(X, misalign=m, lib=L)]
+        exp = [int(v) for v in X.sum(axis=0, dtype=np.uint64)]
+        if got != exp:
+            differ("add_rows", f"{got[:8]} vs {exp[:8]}", inp)
+        if have_k5:
+            terms.append(f"chk_add_rows {cnat(w)} {rows_term(X)} {czl(got)}")
+            meta.append(("add_rows", inp))
+        count("isim_unpacked", w, m)
+        gi = ck.isim_unpacked(X, misalign=m, lib=L)
+        ei = P.jt_isim_unpacked(X)
+        if bits(gi) != bits(ei):
+            differ("isim_unpacked", f"{bits(gi)} vs {bits(ei)}", inp)
+        if have_k5:
+            terms.append(f"chk_isim_unpacked {cnat(w)} {rows_term(X)} {cfloat(float(gi))}")
+            meta.append(("isim_unpacked", inp))
+    for _ in range(20 * scale):
+        w, m, n = rng.choice([1, 2, 3, 8, 9, 64, 65]), rng.choice(MISALIGN), rng.randrange(1, 7)
+        X = rand_rows(rng, n, w)
+        nf = rng.choice([None, None, 8 * w, 8 * w - 3, 8 * w - rng.randrange(0, 8)])
+        if nf is not None and nf <= 0:
+            nf = None
+        inp = {"rows": X.tolist(), "n_features": nf, "misalign": m}
+        count("isim_packed", w, m)
+        try:
+            gp = ck.isim_packed(X, n_features=nf, misalign=m, lib=L)
+        except ck.KernelError:
+            gp = None
+            stats["cpp_threw"] += 1
+        try:
+            ep = P.jt_isim_packed(X, nf)
+        except Exception:
+            ep = None
+        if (gp is None) != (ep is None):
+            differ("isim_packed", f"one side raises: C++ {gp!r}, fallback {ep!r}", inp)
+        elif gp is not None and bits(gp) != bits(ep):
+            differ("isim_packed", f"{bits(gp)} vs {bits(ep)}", inp)
+        if have_k5:
+            gt = "None" if gp is None else f"(Some {cfloat(float(gp))})"
+            terms.append(f"chk_isim_packed {copt(nf, cz)} {rows_term(X)} {gt}")
+            meta.append(("isim_packed", inp))
+
     out = eval_cases("cpp", PRE, terms, shard=40)
     r.cases = len(terms)
     r.nontrivial = len({str(m) for m in meta})
@@ -486,6 +537,24 @@ def replay_c13(payload):
         X, y = np.array(inp["rows"], dtype=np.uint8), np.array(inp["vec"], dtype=np.uint8)
         return [bits(v) for v in ck.sim_arr_vec(X, y, misalign=m, lib=L)] == \
             [bits(v) for v in P._jt_sim_arr_vec_packed(X, y)]
+    if k == "add_rows":
+        X = np.array(inp["rows"], dtype=np.uint8)
+        return [int(v) for v in ck.add_rows(X, misalign=m, lib=L)] == [int(v) for v in X.sum(axis=0, dtype=np.uint64)]
+    if k == "isim_unpacked":
+        X = np.array(inp["rows"], dtype=np.uint8)
+        return bits(ck.isim_unpacked(X, misalign=m, lib=L)) == bits(P.jt_isim_unpacked(X))
+    if k == "isim_packed":
+        X = np.array(inp["rows"], dtype=np.uint8)
+        nf = inp["n_features"]
+        try:
+            gp = ck.isim_packed(X, n_features=nf, misalign=m, lib=L)
+        except ck.KernelError:
+            gp = None
+        try:
+            ep = P.jt_isim_packed(X, nf)
+        except Exception:
+            ep = None
+        return (gp is None) == (ep is None) and (gp is None or bits(gp) == bits(ep))
     if k == "most_dissimilar":
         X = np.array(inp["rows"], dtype=np.uint8)
         nf = inp["n_features"]
